@@ -176,10 +176,19 @@ class Site:
 # ----------------------------------------------------------------------------- replay
 import json
 import re
+import signal
 
 _label = re.compile(r'^(\w+)(?:\((.*)\))?$')
 ALREADY = ("AlreadyBranch", "AlreadyTree", "AlreadyCheckout", "AlreadyLightweightCheckout", "AlreadyUsingShared",
            "AlreadyStandalone")
+
+
+class Hang(Exception):
+    pass
+
+
+def _alarm(*a):
+    raise Hang()
 
 
 def canon(c):
@@ -223,19 +232,24 @@ def replay_one(sub, base, path, states):
         l0, st1 = states[path[i - 1][1]]["lay"], states[nid]
         m = _label.match(act)
         name, arg = m.group(1), (m.group(2) or "").strip('"')
+        if name not in ("Reconfigure", "Upgrade", "UpgradeShared"):
+            sub.machinery("unknown action " + act)
+        # a call the model says never returns gets 15 s, any other 300 s (then it is reported as diverging)
+        signal.signal(signal.SIGALRM, _alarm)
+        signal.alarm(15 if st1["last"] == "diverges" else 300)
         try:
             if name == "Reconfigure":
                 site.reconfigure(arg)
             elif name == "Upgrade":
                 site.upgrade(arg)
-            elif name == "UpgradeShared":
-                site.upgrade(arg, "shared")
             else:
-                sub.machinery("unknown action " + act)
+                site.upgrade(arg, "shared")
             rout, exc = "ok", ""
         except Exception as e:
             exc = type(e).__name__
-            rout = "already" if exc in ALREADY else "refused"
+            rout = "already" if exc in ALREADY else ("diverges" if isinstance(e, Hang) else "refused")
+        finally:
+            signal.alarm(0)
         log.append([name, arg, rout, exc])
         try:
             r1 = site.layout()
@@ -256,6 +270,8 @@ def replay_one(sub, base, path, states):
         if rout == "ok" and st1["lay"] != l0:
             sub.nontrivial(repr((sorted(lay0.items()), [tuple(x[:2]) for x in log])))
         c0 = c1
+        if rout == "diverges":
+            break               # an interrupted conversion: nothing further is specified
     if len(sub.cov["samples"]) < 1 and len(log) >= 2 and all(x[2] == "ok" for x in log):
         sub.sample({"initial_layout": lay0, "steps": log})
 
